@@ -18,7 +18,7 @@ RULE = ("history + executable shadow model: a history is a sequence over a 13-le
         "with the shadow (tag, depth, values, dtype, nn.Parameter-ness, requires_grad, lr assigned by scaled_parameters). icontract "
         "postconditions on the two copy/unpickle hooks additionally require that their result is itself copy-safe. quick: all "
         "histories of length <= 2 x 4 tags x 3 depths + random histories of length 3-4; thorough: ALL histories of length <= 4. "
-        "Non-trivial = history length >= 2; distinct = (history, tag, depth).")
+        "Non-trivial = history length >= 2; distinct = (history, tag, depth). After every step the scaled lr is also computed from a 0-dim tensor lr and compared with the original's in value and dtype.")
 ASSUMPTIONS = ["load_state_dict(assign=True) is out of scope (replaces the parameter object by design)"]
 IMPORTS = ["unit_scaling.parameter", "unit_scaling.transforms.utils", "unit_scaling.optim", "unit_scaling.transforms"]
 REQUIRED_MONITORS = ["shadow:steps-compared", "contract:_parameter_deepcopy", "contract:_rebuild_parameter_with_state", "lr:accepted-by-optimizer"]
